@@ -27,11 +27,17 @@ def label_tables(F, rep, rule):
     for nm, f in (("resolve_expanded_values_with_key_sanitizer", w), ("Var::try_from_secondary_label", r), ("PreReleaseLabel::label_str", ls), ("PreReleaseLabel::try_from_str", ts)):
         if not rep.anchor(rule, nm, f): return
     rep.fn_seen(w, r, ls, ts)
+    # helpers of the module and closures called directly (`labelled("major")`) are spliced in: the label constant then reaches
+    # key_sanitizer.sanitize under the Var arm of its call site
+    w = mir.inlined(F, w, depth=2, keep=("resolve_parts_with_value", "resolve_value", "label_str"), ok=lambda F_, c_, cp, g_: g_ is not None and g_.kind != "closure" and cp.startswith("crate::version::zerv::components::"))
     writer = {}
     for bi, t in w.calls():
         if (mir.callee(t) or "") != SANITIZE: continue
         recv = mir.trace_op(w, t[2][0])
-        if not all(o.kind == "param" and o.data == 4 for o in recv): continue
+        if not all((o.kind == "param" and o.data == 4) or (o.kind == "upvar" and "key_sanitizer" in str(o.data)) or "key_sanitizer" in o.path_str() for o in recv):
+            # through an inlined closure the receiver is a captured reference: accept when it leads back to parameter 4
+            deep = mir.deep_origins(w, t[2][0])
+            if not any(k == "param" and d == "4" for k, d in deep): continue
         v = None
         for d, pol, dd in mir.guards_of(w, bi):
             if d[0] == "discr" and "components::Var" in str(d[2]) and isinstance(pol, tuple) and pol[0] == "in" and len(pol[1]) == 1: v = next(iter(pol[1]))
